@@ -95,13 +95,10 @@ int32_t psPkcs3ParseDhParamBin(psPool_t *pool, const unsigned char *dhBin,
         /* Read desired length of private key.
            (Note: currently ignored by MatrixSSL). */
         pstm_int bitlen;
-        if (pstm_init_size(pool, &bitlen, 1) < 0)
-        {
-            goto L_ERR;
-        }
+        /* pstm_read_asn initializes its output and leaves nothing
+           allocated when it fails */
         if (pstm_read_asn(pool, &c, (uint16_t) (end - c), &bitlen) < 0)
         {
-            pstm_clear(&bitlen);
             goto L_ERR;
         }
         while(pstm_cmp_d(&bitlen, params->x_bitlen) == PSTM_GT)
